@@ -6,7 +6,7 @@ from harness.lib import consumer_run
 MONITORS = {
     "C02": ["c02-increasing", "c02-no-overlap", "c02-single-fetch", "c02-faithful", "c02-prompt"],
     "C03": ["c03-commit-le-processed", "c03-one-in-flight", "c03-committed-acked", "c03-resume", "c03-failure-stops", "c03-commit-reports", "c03-ack-recorded", "c03-resume-asks"],
-    "C13": ["c13-start-once", "c13-fires-once", "c13-quiescent", "c13-shutdown", "c13-shutdown-inproc", "c13-no-crash", "c13-commit-bounded", "c02-prompt", "c03-commit-reports"],
+    "C13": ["c13-start-once", "c13-fires-once", "c13-quiescent", "c13-shutdown", "c13-shutdown-inproc", "c13-no-crash", "c13-commit-bounded", "c13-alive", "c13-shutdown-fail", "c02-prompt", "c03-commit-reports"],
     "C14": ["c14-delays", "c14-reset", "c14-growth", "c14-never-skips", "c14-attempts"],
 }
 ALL_MONITORS = [m for p in sorted(MONITORS) for m in MONITORS[p]]
@@ -142,6 +142,11 @@ def trace_lines(sc, impl):
             if c == "crash":
                 c = "crash impl"
             w = c.split()
+            if w[0] in ("setTimer", "cancelTimer") and w[1].startswith("other:"):
+                # a timer of the implementation the model has no name for (neither callee nor the attribute holding the
+                # handle is known): not part of the Lean trace; it disagrees with the model, and
+                # `unknown_timers_left` says whether it outlives stop()
+                continue
             if w[0] == "setTimer":
                 # the delay exactly as the implementation computed it (a binary float)
                 c = "setTimer %s %s" % (w[1], Fraction(float(w[2])))
@@ -149,6 +154,22 @@ def trace_lines(sc, impl):
         if any(o.startswith("crash") for o in obs):
             break
     return out
+
+
+def unknown_timers_left(impl):
+    """Timers the implementation armed that the model has no name for and that are still armed when stop() returns
+    (or a graceful shutdown reports success): the names, or [] (the scenario cannot fire such a timer)."""
+    armed, left = [], []
+    for obs in impl:
+        for o in obs:
+            w = o.split()
+            if w[0] == "setTimer" and w[1].startswith("other:"):
+                armed.append(w[1])
+            elif w[0] == "cancelTimer" and w[1].startswith("other:") and w[1] in armed:
+                armed.remove(w[1])
+            elif (w[0] == "stopReturned" or w[:2] == ["shutdownFired", "ok"]) and armed:
+                left += armed
+    return sorted(set(left))
 
 
 def monitor_lines(sc, impl, names):
